@@ -661,6 +661,80 @@ def ob_target_extra():
     return h
 
 
+SUB_USES = ["common, local, 'sub.c'", "common + local, 'sub.c'", "local, 'sub.c'", "['sub.c'] + common", "sub_srcs", "common, 'sub.c'"]
+SUB_OPS = [('info', None), ('src_add', 'new.c'), ('src_rm', 'sub.c'), ('src_add', 'sub.c')]
+
+
+def ob_info_subdir():
+    """a target defined in a SUBDIRECTORY whose sources come through files() objects made in the parent directory, in its own directory, plain strings and `+`
+    expressions: `info` (before and after src_add / src_rm through the real Rewriter on real files) names exactly the files the real Interpreter hands to
+    executable() - each under the directory it is anchored in -, the root build file is not touched by an edit of the subdirectory's target, both files parse"""
+    def h():
+        import os
+        from mesonbuild.mesonlib import File, listify
+        d = _tdir()
+        uses = SUB_USES[choose(len(SUB_USES), 'sources of the target')]
+        op, name = SUB_OPS[choose(len(SUB_OPS), 'operation')]
+        root = "project('p')\ncommon = files('common.c')\nsubdir('sub')\nexecutable('rootprog', common, 'main.c')\n"
+        sub = "local = files('local.c')\nsub_srcs = [common, 'sub.c']\nexecutable('subprog', %s)\n" % uses
+        os.makedirs(os.path.join(d, 'sub'), exist_ok=True)
+        for rel in ('common.c', 'main.c', 'sub/local.c', 'sub/sub.c', 'sub/new.c'):
+            with open(os.path.join(d, rel), 'w') as f: f.write('')
+        with open(os.path.join(d, 'meson.build'), 'w') as f: f.write(root)
+        with open(os.path.join(d, 'sub', 'meson.build'), 'w') as f: f.write(sub)
+
+        def real():
+            env, o = _renv(d)
+            from mesonbuild import build
+            from mesonbuild.interpreter import Interpreter
+            it = Interpreter(build.Build(env), backend=None, user_defined_options=o)
+            out = {}
+            def exe(node, args, kwargs):
+                out[args[0]] = sorted(os.path.normpath(x.relative_name() if isinstance(x, File) else os.path.join(it.subdir, x)) for x in listify(args[1:]))
+            it.funcs['executable'] = exe
+            it.run()
+            return out
+
+        def info():
+            rw = R.Rewriter(d); rw.analyze_meson()
+            for t in ('rootprog', 'subprog'): rw.process({'type': 'target', 'target': t, 'operation': 'info'})
+            return {v['name']: sorted(os.path.normpath(x) for x in v['sources']) for v in rw.info_dump['target'].values()}
+        try:
+            before = real()
+            if op != 'info':
+                rw = R.Rewriter(d); rw.analyze_meson()
+                rw.process({'type': 'target', 'target': 'subprog', 'operation': op, 'sources': [os.path.join('sub', name)], 'subdir': '', 'target_type': 'executable'})
+                rw.apply_changes()
+            after = real()
+        finally:
+            pass
+        check(open(os.path.join(d, 'meson.build')).read() == root, 'the build file of the parent directory is not touched')
+        exp = set(before['subprog'])
+        if op == 'src_add': exp = exp | {os.path.join('sub', name)}
+        elif op == 'src_rm': exp = exp - {os.path.join('sub', name)}
+        new_sub = open(os.path.join(d, 'sub', 'meson.build')).read()
+        if new_sub != sub or op == 'info':
+            check(set(after['subprog']) == exp, 'the addressed target has exactly the requested sources (real interpreter)')
+        check(after['rootprog'] == before['rootprog'], 'the other target keeps its sources')
+        inf = info()
+        check(inf.get('subprog') == after['subprog'] and inf.get('rootprog') == after['rootprog'], '`info` reports the files the interpreter hands to the target, each under the directory it is anchored in')
+        cover('edited' if new_sub != sub else 'unchanged')
+    return h
+
+
+def _renv(d):
+    import tempfile, argparse, atexit, shutil
+    from mesonbuild import environment, cmdline
+    if d not in _RENV:
+        p = argparse.ArgumentParser(); cmdline.register_builtin_arguments(p)
+        o = p.parse_args([]); o.cross_file = []; o.native_file = []
+        cmdline.parse_cmd_line_options(o)
+        b = tempfile.mkdtemp(prefix='c17bld')
+        atexit.register(lambda: shutil.rmtree(b, ignore_errors=True))
+        _RENV[d] = (environment.Environment(d, b, o), o)
+    return _RENV[d]
+
+
 TAILS = ['\n', '', '\n\n', '\n# end\n', '\nx = 1\n', '\nx = 1']     # what follows the last target statement (a file need not end with a line break)
 BAR_FORMS = ["executable('bar', 'bar.c')", "bar_exe = executable('bar', 'bar.c')", "bar_src = ['bar.c']\nbar_exe = executable('bar', bar_src)",
              "bar_exe = executable('bar',\n  'bar.c',\n)", "bar_exe   =   executable('bar', 'bar.c')"]
@@ -736,6 +810,8 @@ def obligations(tier):
     out.append(Obligation('target-add-rm', ob_target_add_rm(), dict(operations='add target | remove target | add then remove', file_end=repr(TAILS), statement_forms=len(BAR_FORMS), position='first | last target'), labels=('added', 'removed', 'restored')))
     out.append(Obligation('target-edit', ob_target_edit(), dict(shapes='%d ways foo uses the shared list x %d ways bar does' % (len(FOO_USES), len(BAR_USES)), operations='add new / add existing / rm shared / rm own',
                           files='real files in a scratch directory (pathlib resolves them): names concrete'), labels=('edited', 'refused-or-nothing-to-do'), path_timeout=300))
+    out.append(Obligation('info-subdir', ob_info_subdir(), dict(real='Rewriter (analyze, target info / src_add / src_rm, apply_changes) on real files; the real Interpreter as the oracle', layout="root: common = files('common.c'), subdir('sub'); sub: local = files('local.c'), executable('subprog', ...)",
+                          sources='6 spellings: files() of the parent / own directory, strings, +, a variable', operation='info | src_add | src_rm | src_add of an existing file'), labels=('edited', 'unchanged'), max_paths=100000))
     for op in ('set', 'delete', 'add', 'remove'):
         if op in ('set', 'delete'):
             out.append(Obligation('kwargs-expr[%s]' % op, ob_kwargs_expr(op), dict(function='target | dependency', keyword='install_dir | not_found_message (MTypeStr)',
